@@ -436,6 +436,11 @@ def run(chk: Check) -> int:
         found += 1
         chk.violation("delete_tags contradicts the property (complete) through the key-prefix middleware: a key written with a tag is still readable after "
                       f"delete_tags ({probe['observed']}; set_add and set_pop address different tag sets)", probe, signature="C12:add-prefix-middleware-renames-set-add-key")
+    dprobe = taghist.disabled_incr_probe()
+    if dprobe is not None:
+        found += 1
+        chk.violation("delete_tags contradicts the property (precise): a key that never carried the tag - the tagged incr was issued while INCR was disabled and "
+                      f"wrote nothing - is deleted by delete_tags (get -> {dprobe['observed']})", dprobe, signature="D73:disabled-incr-files-membership")
     if interesting.get("SET_GONE_WHILE_MEMBER_ALIVE") and not found:
         raise HarnessError("a tag set was gone while a carrier was alive, yet no violation was derived - oracle bug")
     if proof is not None:
@@ -463,7 +468,7 @@ def run(chk: Check) -> int:
                 "recreate (tagged write, one explicit removal path - delete / delete_many / delete_match exact / delete_match glob / delete_tags of "
                 "another carried tag -, re-creation without the tag, delete_tags, with noise) and mutcall (decorated calls with mutating bodies and "
                 "controls, delete_tags of a tag rendered from the call-time arguments, probes and a further call); generated from "
-                "VERIF_SEED, round-robin over configurations " + ",".join(CFGS) + "; a case is non-trivial iff it contains a delete_tags and reached "
+                "VERIF_SEED, round-robin over configurations " + ",".join(CFGS) + " (split / split_tags: the keys under one prefix of the layout live in a second, prefix-routed data backend)" + "; a case is non-trivial iff it contains a delete_tags and reached "
                 "at least one interesting state listed in interesting_states_cases (other than a decorator hit); distinct = distinct (config, layout, op list)",
         "samples": samples,
         "corpus_cases": ncorpus,
@@ -480,6 +485,7 @@ def run(chk: Check) -> int:
         "cases_by_stream": by_stream,
         "cases_by_wrapping_option": by_option,
         "observed_not_judged": taghist.not_judged_probes(),
+        "disabled_incr_probe": "a tagged incr that is disabled files no membership" if dprobe is None else dprobe,
         "prefix_middleware_probe": "delete_tags finds the members through add_prefix" if probe is None else probe,
         "delete_tags_commands_judged": deltags_checked,
         "op_histogram": hist,
